@@ -19,6 +19,37 @@
 // returns a counter; the first UnixNano call of a batch (the `start` reading in StartTransporting,
 // after the loop's two ctx checks, before transportWithRetry's check) is the injection point for
 // cancellation "check".
+//
+// CONSTRUCTORS.  A case with "ctor":"production" builds its worker with transporter.NewTransporter
+// (the constructor the factory calls): a real aws-sdk-go session and S3 client (static dummy
+// credentials, region us-east-1, MaxRetries 0 and - because an endpoint is given - path-style
+// addressing, all set by that constructor), whose endpoint is an httptest server of this package
+// (s3Wire).  The server reads the PUT /<bucket>/<key> request completely, rebuilds the
+// PutObjectInput (Bucket, Key, Content-Encoding, Body = a *bytes.Reader over the bytes received)
+// and calls the SAME fakeS3.PutObjectWithContext; a scripted failure is answered with the S3 XML
+// error document InternalError and HTTP 500, a success with 200.  Observables, Gallina and monitor
+// are those of the test path; "reader offset" and "whole underlying array" then describe the body as
+// it arrived (a worker that handed over a reader at offset k > 0 shows as a body that is not this
+// batch's object).
+//
+// SDK-level retries: HTTP 500 is an answer the SDK's own retryer WOULD retry; that it does not is
+// the constructor's `MaxRetries: aws.Int(0)`, so one attempt of the worker = one request = one call
+// of the fake, and a constructor that loses that setting shows as attempts beyond the budget.
+//
+// Kept on the test constructor in the generated share (a corpus case or a replay may still ask for
+// them: a rewritten key is then reported by the monitor, a "check"/"upload" case ends as dropped):
+//   - cancellation "check" and "upload": the real client honours the context it is given (the fake
+//     ignores it by contract): after "check" no request is sent at all, every attempt fails with
+//     RequestCanceled and the worker ends with "max retries exceeded" instead of uploading without
+//     reporting; "upload" races the answer against the cancellation;
+//   - keys the SDK rewrites: its REST URI cleaning (aws.Config.DisableRestProtocolURICleaning is left
+//     unset by the constructor) applies path.Clean to /<bucket>/<key>, so an empty, "." or ".."
+//     segment inside a key component changes the key (and ".." even the bucket) on the wire.  Measured
+//     once per run by sdkKeyProbe and reported as a note.
+//
+// Infrastructure: a request the handler cannot take apart, or a client-side error that is not the
+// scripted one (connection failure, ...; recognised in the error the worker logs) marks the case; a
+// marked case is dropped and counted, never emitted or monitored.
 package s3
 
 import (
@@ -30,6 +61,8 @@ import (
 	"fmt"
 	"io"
 	"math/rand"
+	"net/http"
+	"net/http/httptest"
 	"os"
 	"path/filepath"
 	"sort"
@@ -77,10 +110,59 @@ type sbatch struct {
 
 type scase struct {
 	Mode     string   `json:"mode"`
+	Ctor     string   `json:"ctor,omitempty"` // "" = NewTransporterWithInterface, "production" = NewTransporter + SDK + http
 	KeySpace string   `json:"key_space"`
 	MaxReuse int      `json:"buf_max_reuse"`
 	Retries  uint64   `json:"max_retries"`
 	Batches  []sbatch `json:"batches"`
+}
+
+const (
+	ctorProduction = "production"
+	bucketName     = "bucket"
+)
+
+// cleanStable: the key component keeps its spelling under path.Clean.  last: the component is
+// followed by "_<lsn>.gz", so its last segment is never special.
+func cleanStable(comp string, last bool) bool {
+	comp = strings.Trim(comp, "/")
+	if comp == "" {
+		return true // omitted by key_join
+	}
+	segs := strings.Split(comp, "/")
+	if last {
+		segs = segs[:len(segs)-1]
+	}
+	for _, g := range segs {
+		if g == "" || g == "." || g == ".." {
+			return false
+		}
+	}
+	return true
+}
+
+// wireReason says why a generated case stays on the test constructor ("" = it can go over the wire).
+func wireReason(c scase) string {
+	for _, b := range c.Batches {
+		if b.Cancel == "check" || b.Cancel == "upload" {
+			return "cancel-" + b.Cancel + ":real-client-honours-ctx"
+		}
+	}
+	if !cleanStable(c.KeySpace, false) {
+		return "key-rewritten-by-sdk-uri-cleaning"
+	}
+	for _, b := range c.Batches {
+		t := b.Time.strings()
+		for i, comp := range t {
+			if i == 4 {
+				comp = strings.TrimLeft(comp, "/") + "_0"
+			}
+			if !cleanStable(comp, i == 4) {
+				return "key-rewritten-by-sdk-uri-cleaning"
+			}
+		}
+	}
+	return ""
 }
 
 // formatClock is utils.RealTime.DateString with time.Now() replaced by the given instant.
@@ -165,12 +247,14 @@ type runObs struct {
 	Batches    []batchObs
 	Terminated bool // CancelFunc was called and txnsWritten closed
 	Stats      map[string]int64
+	Infra      string // production case whose HTTP plumbing failed: dropped, never reported
 }
 
 // ---------- fakes ----------
 
 type fakeEnv struct {
 	mu        sync.Mutex
+	infra     string // first infrastructure problem seen by the wire handler
 	cancel    context.CancelFunc
 	cur       *sbatch
 	atts      []attObs
@@ -260,19 +344,96 @@ func (f *fakeS3) PutObjectWithContext(ctx context.Context, in *awss3.PutObjectIn
 }
 
 // panicHook notes that shutdown() recovered a panic (level Warn, "Recovered in S3Transporter ...").
+// On the wire path it also looks at the error the worker logs for a failed attempt: anything but
+// the scripted failure is plumbing.
 type panicHook struct {
-	mu   sync.Mutex
-	seen bool
+	mu    sync.Mutex
+	seen  bool
+	wire  bool
+	infra string
 }
 
-func (h *panicHook) Levels() []logrus.Level { return []logrus.Level{logrus.WarnLevel} }
+const scriptedFailure = "scripted PutObject failure"
+
+func (h *panicHook) Levels() []logrus.Level {
+	return []logrus.Level{logrus.WarnLevel, logrus.ErrorLevel}
+}
 func (h *panicHook) Fire(e *logrus.Entry) error {
 	if strings.HasPrefix(e.Message, "Recovered in S3Transporter") {
 		h.mu.Lock()
 		h.seen = true
 		h.mu.Unlock()
 	}
+	if h.wire && strings.HasSuffix(e.Message, "failed to be uploaded to S3") {
+		if err, ok := e.Data[logrus.ErrorKey].(error); ok && !strings.Contains(err.Error(), scriptedFailure) {
+			h.mu.Lock()
+			if h.infra == "" {
+				h.infra = "the worker saw an unscripted error: " + strings.SplitN(err.Error(), "\n", 2)[0]
+			}
+			h.mu.Unlock()
+		}
+	}
 	return nil
+}
+
+// ---------- the wire: just enough of S3 for PutObject ----------
+
+var prodEnvOnce sync.Once
+
+// prodEnv keeps the SDK's session from looking anywhere outside the process.
+func prodEnv() {
+	prodEnvOnce.Do(func() {
+		os.Setenv("AWS_EC2_METADATA_DISABLED", "true")
+		os.Setenv("AWS_SHARED_CREDENTIALS_FILE", os.DevNull)
+		os.Setenv("AWS_CONFIG_FILE", os.DevNull)
+		for _, k := range []string{"AWS_SDK_LOAD_CONFIG", "AWS_PROFILE", "AWS_DEFAULT_PROFILE", "AWS_CA_BUNDLE", "AWS_ROLE_ARN", "AWS_WEB_IDENTITY_TOKEN_FILE", "AWS_S3_USE_ARN_REGION"} {
+			os.Unsetenv(k)
+		}
+	})
+}
+
+// s3Wire delegates every PUT /<bucket>/<key> to the scripted fake.
+type s3Wire struct{ fk *fakeS3 }
+
+func (h s3Wire) ServeHTTP(w http.ResponseWriter, r *http.Request) {
+	e := h.fk.env
+	fail := func(why string) {
+		e.mu.Lock()
+		if e.infra == "" {
+			e.infra = why
+		}
+		e.mu.Unlock()
+		http.Error(w, "harness: "+why, http.StatusBadRequest)
+	}
+	body, err := io.ReadAll(r.Body)
+	if err != nil {
+		fail("request body: " + err.Error())
+		return
+	}
+	p := r.URL.Path
+	if r.Method != http.MethodPut || !strings.HasPrefix(p, "/") {
+		fail(fmt.Sprintf("unexpected request %s %q", r.Method, p))
+		return
+	}
+	bucket, key := p[1:], ""
+	if i := strings.IndexByte(bucket, '/'); i >= 0 {
+		bucket, key = bucket[:i], bucket[i+1:]
+	}
+	in := &awss3.PutObjectInput{Bucket: &bucket, Key: &key, Body: bytes.NewReader(body)}
+	if v := r.Header.Values("Content-Encoding"); len(v) > 0 {
+		in.ContentEncoding = &v[0]
+	}
+	if _, ferr := h.fk.PutObjectWithContext(r.Context(), in); ferr != nil {
+		doc := `<?xml version="1.0" encoding="UTF-8"?>` + "\n" + `<Error><Code>InternalError</Code><Message>` + ferr.Error() + `</Message><RequestId>harness</RequestId><HostId>harness</HostId></Error>`
+		w.Header().Set("Content-Type", "application/xml")
+		w.Header().Set("Content-Length", strconv.Itoa(len(doc)))
+		w.WriteHeader(http.StatusInternalServerError)
+		_, _ = io.WriteString(w, doc)
+		return
+	}
+	w.Header().Set("ETag", `"harness"`)
+	w.Header().Set("Content-Length", "0")
+	w.WriteHeader(http.StatusOK)
 }
 
 // ---------- driver ----------
@@ -312,8 +473,32 @@ func runImpl(c scase) runObs {
 	transporter.TimeSource = env
 	defer func() { transporter.TimeSource = old }()
 
-	tp := transporter.NewTransporterWithInterface(sh, in, txns, statsChan, *logrus.NewEntry(lg), 0,
-		"bucket", c.KeySpace, &fakeS3{env: env}, backoff.WithMaxRetries(&backoff.ZeroBackOff{}, c.Retries), c.MaxReuse)
+	fk := &fakeS3{env: env}
+	policy := backoff.WithMaxRetries(&backoff.ZeroBackOff{}, c.Retries)
+	var tp transport.Transporter
+	if c.Ctor == ctorProduction {
+		prodEnv()
+		hook.wire = true
+		srv := httptest.NewServer(s3Wire{fk})
+		defer srv.Close()
+		region, keyID, secret, endpoint := "us-east-1", "AKIDHARNESS", "harness-secret", srv.URL
+		err := func() (err error) {
+			defer func() {
+				if r := recover(); r != nil { // session.Must
+					err = fmt.Errorf("%v", r)
+				}
+			}()
+			tp = transporter.NewTransporter(sh, in, txns, statsChan, *logrus.NewEntry(lg), 0,
+				bucketName, c.KeySpace, policy, &region, &keyID, &secret, &endpoint, c.MaxReuse)
+			return nil
+		}()
+		if err != nil {
+			return runObs{Stats: map[string]int64{}, Infra: "the constructor failed: " + err.Error()}
+		}
+	} else {
+		tp = transporter.NewTransporterWithInterface(sh, in, txns, statsChan, *logrus.NewEntry(lg), 0,
+			bucketName, c.KeySpace, fk, policy, c.MaxReuse)
+	}
 
 	// unexported worker state, read only while the worker goroutine is parked or gone
 	// (through the verif hook VerifBufferState, not by reflection on field names: a rename in the
@@ -440,7 +625,36 @@ func runImpl(c scase) runObs {
 	close(stopDrain)
 	<-drained
 	obs.Terminated = sh.TerminateCtx.Err() != nil && closed
+	env.mu.Lock()
+	obs.Infra = env.infra
+	env.mu.Unlock()
+	hook.mu.Lock()
+	if obs.Infra == "" {
+		obs.Infra = hook.infra
+	}
+	hook.mu.Unlock()
 	return obs
+}
+
+// sdkKeyProbe measures, on the production constructor, what becomes of a key with an empty or
+// ".." segment inside a component.  Returns a sentence for rep.Notes.
+func sdkKeyProbe() string {
+	probe := func(ks string) (bucket, key string, ok bool) {
+		o := runImpl(scase{Mode: "probe", Ctor: ctorProduction, KeySpace: ks, MaxReuse: 0, Retries: 0, Batches: []sbatch{{
+			Msgs: []smsg{{Json: "{}", Lsn: 7}}, Time: stime{Clock: []int{2020, 1, 2, 3, 4, 5}}, Script: []int{-1}}}})
+		if o.Infra != "" || len(o.Batches) != 1 || len(o.Batches[0].Atts) != 1 {
+			return "", "", false
+		}
+		return o.Batches[0].Atts[0].Bucket, o.Batches[0].Atts[0].Key, true
+	}
+	b1, k1, ok1 := probe("a//b")
+	b2, k2, ok2 := probe("../x")
+	if !ok1 || !ok2 {
+		return "production constructor, key probe: inconclusive"
+	}
+	t := formatClock([]int{2020, 1, 2, 3, 4, 5})
+	return fmt.Sprintf("production constructor, key probe: with key space \"a//b\" key_join gives %q and the object was PUT to bucket %q key %q; with key space \"../x\" key_join gives %q and the object was PUT to bucket %q key %q (the worker is configured with bucket %q). NewTransporter leaves aws.Config.DisableRestProtocolURICleaning unset, so the SDK applies path.Clean to /<bucket>/<key>: the key C12 speaks of (and the fake of the test constructor sees) is not always the key of the stored object. Generated cases whose key would be rewritten stay on the test constructor.",
+		specKey("a//b", t, 7), b1, k1, specKey("../x", t, 7), b2, k2, bucketName)
 }
 
 // ---------- Gallina ----------
@@ -669,7 +883,7 @@ func monitor(c scase, o runObs) []core.Violation {
 			if a.Key != bo.Atts[0].Key {
 				add("key-changes-between-attempts", fmt.Sprintf("batch %d attempt %d: key %q, first attempt used %q", i, j, a.Key, bo.Atts[0].Key))
 			}
-			if a.Encoding != "gzip" || a.Bucket != "bucket" {
+			if a.Encoding != "gzip" || a.Bucket != bucketName {
 				add("request-fields", fmt.Sprintf("batch %d attempt %d: bucket %q encoding %q", i, j, a.Bucket, a.Encoding))
 			}
 			if a.Ok && okAtt < 0 && a.ReadErr == "" && recordsMatch(a.ReadText, b.Msgs) {
@@ -852,6 +1066,9 @@ func loadCorpus(dir string) []scase {
 }
 
 func validCase(c scase) string {
+	if c.Ctor != "" && c.Ctor != ctorProduction {
+		return fmt.Sprintf("unknown constructor %q", c.Ctor)
+	}
 	for i, b := range c.Batches {
 		if len(b.Time.Clock) != 6 && len(b.Time.Raw) != 5 {
 			return fmt.Sprintf("batch %d: time needs clock[6] or raw[5]", i)
@@ -875,19 +1092,45 @@ func init() {
 		}
 		cases := loadCorpus(corpusDir)
 		for i := 0; i < n; i++ {
-			cases = append(cases, genCase(rng))
+			c := genCase(rng)
+			if i%5 == 4 { // the production share: a function of the index, the PRNG stream is untouched
+				if why := wireReason(c); why != "" {
+					core.Bump(rep, "ctor-share:stays-on-test-constructor("+why+")")
+				} else {
+					c.Ctor = ctorProduction
+				}
+			}
+			cases = append(cases, c)
 		}
-		rep.Rule = "corpus first, then seeded: 90% valid (JSON-like records without raw newline, clock-formatted upload times advancing by 0/1/many seconds), 10% adversarial (empty / newline-holding / gzip-magic records, half of their batches with raw DateString strings incl. empty and slash-only); key space 80% from {\"\",/,//,a,/a/,a/b//,///x}, 10% further fixed spellings, 10% random over [ab/.-]; bufMaxReuse {0,1,2,5} (8%: -1,3,4); max retries {0,1,2,3,5}; 1-5 batches of 1-3 short records (2.5%: empty batch); per batch 0..retries+2 scripted failures reading 0..1000 bytes; 1/6 of cases cancel the context at one batch (before receive / before the worker's check / during upload). Non-trivial: at least 2 batches processed by one worker and (a retry after a partial read 0<n<len(body), or a non-written outcome); distinct by case."
+		rep.Notes = append(rep.Notes, sdkKeyProbe())
+		rep.Rule = "constructors: every 5th generated case (20%) and the corpus cases that say so build their worker through transporter.NewTransporter (the production constructor: real aws-sdk-go session + S3 client with static dummy credentials, region us-east-1, and - set by the constructor itself - MaxRetries 0 and path-style addressing) instead of NewTransporterWithInterface; its endpoint is an httptest server of the harness that reads PUT /bucket/<key> completely, rebuilds the PutObjectInput and hands it to the SAME scripted fake (a scripted failure after n bytes reads n bytes of the received body and is answered with the S3 XML error InternalError, HTTP 500). SDK-level retries: HTTP 500 is retryable for the SDK's own retryer; that no second request is made is the constructor's MaxRetries 0, i.e. one worker attempt = one request = one fake call is itself under test (a constructor that loses the setting shows as attempts beyond the budget). Kept on the test constructor in the generated share: cancellation at 'check'/'upload' (the real client honours the context, the fake ignores it by contract) and key spaces / raw time strings with an empty, '.' or '..' segment inside a component (the SDK's REST URI cleaning rewrites such keys; see the key-probe note). A production case whose plumbing failed (unparsable request, unscripted client-side error such as a connection failure) is dropped and counted under ctor-share:dropped-infrastructure, never emitted or monitored. Then: corpus first, then seeded: 90% valid (JSON-like records without raw newline, clock-formatted upload times advancing by 0/1/many seconds), 10% adversarial (empty / newline-holding / gzip-magic records, half of their batches with raw DateString strings incl. empty and slash-only); key space 80% from {\"\",/,//,a,/a/,a/b//,///x}, 10% further fixed spellings, 10% random over [ab/.-]; bufMaxReuse {0,1,2,5} (8%: -1,3,4); max retries {0,1,2,3,5}; 1-5 batches of 1-3 short records (2.5%: empty batch); per batch 0..retries+2 scripted failures reading 0..1000 bytes; 1/6 of cases cancel the context at one batch (before receive / before the worker's check / during upload). Non-trivial: at least 2 batches processed by one worker and (a retry after a partial read 0<n<len(body), or a non-written outcome); distinct by case."
 		rep.Notes = append(rep.Notes, "utils.RealTime.DateString() agreed with the harness clock formatting at start-up")
 		var sb strings.Builder
 		sb.WriteString("From Bifrost.model Require Import Base S3.\nOpen Scope string_scope.\nDefinition cases : list s3case := [\n")
 		distinct := map[string]bool{}
+		timing := os.Getenv("VERIF_PRODCTOR_TIMING") != ""
+		var wireTotal, wireMax time.Duration
 		for i, c := range cases {
 			if msg := validCase(c); msg != "" {
 				panic("S3 harness: bad case " + c.Mode + ": " + msg)
 			}
+			t0 := time.Now()
 			o := runImpl(c)
-			if i > 0 {
+			if c.Ctor != "" {
+				d := time.Since(t0)
+				wireTotal += d
+				if d > wireMax {
+					wireMax = d
+				}
+			}
+			if o.Infra != "" {
+				// plumbing, not behaviour: the case is dropped (i is its position in the corpus+generated
+				// sequence, not in the emitted list)
+				core.Bump(rep, "ctor-share:dropped-infrastructure")
+				rep.Notes = append(rep.Notes, fmt.Sprintf("DROPPED %s-constructor case (sequence position %d, mode %s): %s", c.Ctor, i, c.Mode, o.Infra))
+				continue
+			}
+			if rep.Evaluations > 0 {
 				sb.WriteString(";\n")
 			}
 			sb.WriteString(caseGallina(c, o))
@@ -895,6 +1138,19 @@ func init() {
 			rep.CaseIndex = append(rep.CaseIndex, raw)
 			rep.Evaluations++
 			core.Bump(rep, "mode:"+strings.SplitN(c.Mode, ":", 2)[0])
+			if c.Ctor == ctorProduction {
+				core.Bump(rep, "ctor:production(NewTransporter+SDK+http)")
+				for _, bo := range o.Batches {
+					rep.Distribution["ctor-share:requests-over-http"] += len(bo.Atts)
+					for _, a := range bo.Atts {
+						if !a.Ok {
+							core.Bump(rep, "ctor-share:scripted-failures-answered-with-http-500")
+						}
+					}
+				}
+			} else {
+				core.Bump(rep, "ctor:NewTransporterWithInterface")
+			}
 			core.Bump(rep, fmt.Sprintf("key_space:%q", c.KeySpace))
 			core.Bump(rep, fmt.Sprintf("buf_max_reuse:%d", c.MaxReuse))
 			core.Bump(rep, fmt.Sprintf("max_retries:%d", c.Retries))
@@ -944,6 +1200,9 @@ func init() {
 			}
 			rep.Violations = append(rep.Violations, monitor(c, o)...)
 		}
+		if timing {
+			fmt.Fprintf(os.Stderr, "S3 production cases: total %v, slowest %v\n", wireTotal, wireMax)
+		}
 		sb.WriteString("\n].\nDefinition M := Eval vm_compute in mismatches s3case_ok cases.\nPrint M.\n")
 		return sb.String()
 	}})
@@ -959,7 +1218,14 @@ func replay(cs json.RawMessage) string {
 	}
 	o := runImpl(c)
 	var sb strings.Builder
-	fmt.Fprintf(&sb, "key space %q  bufMaxReuse %d  max retries %d\n", c.KeySpace, c.MaxReuse, c.Retries)
+	ctor := c.Ctor
+	if ctor == "" {
+		ctor = "NewTransporterWithInterface"
+	}
+	fmt.Fprintf(&sb, "constructor %s  key space %q  bufMaxReuse %d  max retries %d\n", ctor, c.KeySpace, c.MaxReuse, c.Retries)
+	if o.Infra != "" {
+		fmt.Fprintf(&sb, "INFRASTRUCTURE (the case would be dropped): %s\n", o.Infra)
+	}
 	for i, bo := range o.Batches {
 		b := c.Batches[i]
 		fmt.Fprintf(&sb, "batch %d (%d records, time %v, cancel %q): %s  bufUsedCount=%d gzBuf#%d gz#%d DateString calls=%d\n",
